@@ -346,6 +346,28 @@ def rule_all_parents(rep):
         )
         ploop = next((l for l in wl.body if isinstance(l, ast.For)), None)
         r.need(ploop is not None, "_do_reductions: loop over the links of a node not found")
+        # a test computed once per popped node, just before the loop over its links, and kept in a local that is
+        # assigned nowhere else, is read as the expression it abbreviates (the rule is about which links are followed
+        # from the node and what is done per link; `update_parent`, `node` and a link's head are not rebound by a step)
+        from .. import equiv as _eq
+
+        temps = {}
+        for st in wl.body[: wl.body.index(ploop)]:
+            if isinstance(st, ast.Assign) and len(st.targets) == 1 and isinstance(st.targets[0], ast.Name) and _eq.pure_read(st.value):
+                nm = st.targets[0].id
+                stores = [n for n in ast.walk(d.node) if isinstance(n, ast.Name) and n.id == nm and isinstance(n.ctx, ast.Store)]
+                if len(stores) == 1:
+                    temps[nm] = st.value
+        if temps:
+            import copy as _copy
+
+            orig = ploop
+            ploop = _copy.deepcopy(ploop)
+            for _ in range(3):
+                for nm, val in temps.items():
+                    ploop = _eq._Subst(nm, val).visit(ploop)
+            ast.copy_location(ploop, orig)
+            r.note("locals read as the expressions they abbreviate: " + ", ".join(f"{k} = {unparse(v)}" for k, v in sorted(temps.items())))
         it_txt = unparse(ploop.iter)
         r.check(
             it_txt == "[update_parent] if update_parent and update_parent.head == node else list(node.parents.values())",
